@@ -93,7 +93,12 @@ func runInc(p *plan.Plan, inc *plan.Incarnation) {
 		faults = append(faults, simfs.Fault{Kind: f.Kind, At: f.At, N: f.N, Err: f.Err, Path: f.Path})
 	}
 	police := p.Params["path_police"] == true
-	simfs.Init([]string{"."}, faults, os.Getenv("SIM_FSTRACE") != "" || p.Params["fs_trace"] == true, police)
+	roots := []string{"."}
+	if police {
+		// the configured data and log directories, nothing else (not even the scratch directory around them)
+		roots = []string{"d", "logs"}
+	}
+	simfs.Init(roots, faults, os.Getenv("SIM_FSTRACE") != "" || p.Params["fs_trace"] == true, police)
 	simfs.OnCrash = func(k int) {
 		saveClock()
 		jwrite(&plan.Entry{Idx: "crash", Kind: "crash", Data: mustJSON(map[string]any{"k": k, "op": simfs.LastOp()})})
